@@ -18,6 +18,82 @@ def _nat_list(name, values, doc):
     return f"/-- {doc} -/\ndef {name} : List Nat := [" + ", ".join(str(v) for v in values) + "]\n"
 
 
+def _dispatch_chain(fn):
+    """the if/elif chain over the op code's NAME (`op`) in the `while True:` loop of an engine's `_run_ops`, read off the
+    AST in source order: [(test, literal)] with test one of
+      eq <name>         `op == "<name>"`
+      digits <k>        `op[<k>:].isdigit()`
+      contains <text>   `"<text>" in op`
+      in <table>        `op in <table>`
+      else <callee>     the final `else:` (a call of <callee>)
+    Anything else in the chain is an error: the plugin then reports the module broken rather than guess."""
+    import ast
+    import inspect
+    import textwrap
+
+    tree = ast.parse(textwrap.dedent(inspect.getsource(fn)))
+    loops = [n for n in ast.walk(tree) if isinstance(n, ast.While)]
+    if len(loops) != 1:
+        raise ValueError(f"{fn.__module__}._run_ops: expected one while loop, found {len(loops)}")
+
+    def is_op(n):
+        return isinstance(n, ast.Name) and n.id == "op"
+
+    def on_op(test):
+        return isinstance(test, ast.Compare) and is_op(test.left) and isinstance(test.ops[0], ast.Eq)
+
+    heads = [st for st in loops[0].body if isinstance(st, ast.If) and on_op(st.test)]
+    if len(heads) != 1:
+        raise ValueError(f"{fn.__module__}._run_ops: expected one if-chain on `op`, found {len(heads)}")
+    node, out = heads[0], []
+    while True:
+        t = node.test
+        if isinstance(t, ast.Compare) and len(t.ops) == 1 and len(t.comparators) == 1:
+            c = t.comparators[0]
+            if isinstance(t.ops[0], ast.Eq) and is_op(t.left) and isinstance(c, ast.Constant) and isinstance(c.value, str):
+                out.append(("eq", c.value))
+            elif isinstance(t.ops[0], ast.In) and isinstance(t.left, ast.Constant) and isinstance(t.left.value, str) and is_op(c):
+                out.append(("contains", t.left.value))
+            elif isinstance(t.ops[0], ast.In) and is_op(t.left) and isinstance(c, ast.Name):
+                out.append(("in", c.id))
+            else:
+                raise ValueError(f"{fn.__module__}._run_ops: unrecognised test `{ast.unparse(t)}` in the if-chain")
+        elif (isinstance(t, ast.Call) and isinstance(t.func, ast.Attribute) and t.func.attr == "isdigit" and not t.args
+              and isinstance(t.func.value, ast.Subscript) and is_op(t.func.value.value)
+              and isinstance(t.func.value.slice, ast.Slice) and isinstance(t.func.value.slice.lower, ast.Constant)
+              and t.func.value.slice.upper is None):
+            out.append(("digits", str(t.func.value.slice.lower.value)))
+        else:
+            raise ValueError(f"{fn.__module__}._run_ops: unrecognised test `{ast.unparse(t)}` in the if-chain")
+        if len(node.orelse) == 1 and isinstance(node.orelse[0], ast.If):
+            node = node.orelse[0]
+            continue
+        if (len(node.orelse) == 1 and isinstance(node.orelse[0], ast.Expr) and isinstance(node.orelse[0].value, ast.Call)):
+            f = node.orelse[0].value.func
+            out.append(("else", f.attr if isinstance(f, ast.Attribute) else getattr(f, "id", "?")))
+            return out
+        raise ValueError(f"{fn.__module__}._run_ops: the if-chain does not end in a single call")
+
+
+def _chain_arm(chain, name, tables):
+    """index of the arm of the chain a name takes (the Python semantics of the tests), or None for the `else`"""
+    for k, (test, lit) in enumerate(chain):
+        if test == "eq" and name == lit:
+            return k
+        if test == "digits" and name[int(lit):].isdigit():
+            return k
+        if test == "contains" and lit in name:
+            return k
+        if test == "in" and name in tables[lit]:
+            return k
+    return None
+
+
+def _chain_lean(name, chain, doc):
+    return f"/-- {doc} -/\ndef {name} : List (String × String) := [" + \
+        ", ".join(f'("{a}", "{b}")' for a, b in chain) + "]\n"
+
+
 def constants():
     t = ""
     for n in ("MAX_SCRIPT_ELEMENT_SIZE", "MAX_OPS_PER_SCRIPT", "MAX_PUBKEYS_PER_MULTISIG",
@@ -49,6 +125,21 @@ def constants():
     from btclib.script.engine import tapscript
     t += "/-- `engine.tapscript.OPERATIONS` keys -/\ndef TAPSCRIPT_OPERATIONS : List String := [" + \
         ", ".join(f"\"{k}\"" for k in sorted(tapscript.OPERATIONS)) + "]\n"
+    # the dispatch of the two interpreter loops, from the AST of `_run_ops`
+    lc = _dispatch_chain(engine_script._run_ops)
+    tc = _dispatch_chain(tapscript._run_ops)
+    t += _chain_lean("LEGACY_DISPATCH", lc, "the if-chain over the op code's name in `engine.script._run_ops` (AST, source order)")
+    t += _chain_lean("TAPSCRIPT_DISPATCH", tc, "the if-chain over the op code's name in `engine.tapscript._run_ops` (AST, source order)")
+    ltab = {"OPERATIONS": engine_script.OPERATIONS}
+    ttab = {"OPERATIONS": tapscript.OPERATIONS}
+    t += _nat_list("LEGACY_DISPATCHED",
+                   [b for b, n in sorted(script_mod.OP_CODE_NAME_FROM_INT.items())
+                    if not 0 < b <= 78 and _chain_arm(lc, n, ltab) is not None],
+                   "non-push bytes `engine.script._run_ops` has an arm for (the chain evaluated on `OP_CODE_NAME_FROM_INT`)")
+    t += _nat_list("TAPSCRIPT_DISPATCHED",
+                   [b for b, n in sorted(op_codes_tapscript.OP_CODE_NAMES.items())
+                    if not 0 < b <= 78 and _chain_arm(tc, n, ttab) is not None],
+                   "non-push bytes `engine.tapscript._run_ops` has an arm for (the chain evaluated on `op_codes_tapscript.OP_CODE_NAMES`)")
     t += "/-- `ScriptFlag` members: (name, bit value) -/\ndef FLAGS : List (String × Nat) := [\n"
     t += ",\n".join(f"  (\"{m.name}\", {m.value})" for m in flags_mod.ScriptFlag)
     t += "]\n"
